@@ -17,8 +17,15 @@ type Record struct {
 	Res    Result   `json:"res"`
 	Post   *PState  `json:"post,omitempty"`
 	Probes []Probe  `json:"probes"`
+	// C18 lock-step: the same event executed on the sibling branch whose module store was exported, wiped and re-imported
+	Mirror []Mirror  `json:"mirror"`
 	Cfg    *WorldCfg `json:"cfg,omitempty"`
 	Trace  string   `json:"trace,omitempty"` // trace id on the init record
+}
+
+type Mirror struct {
+	Res  Result `json:"res"`
+	Post PState `json:"post"`
 }
 
 type TraceWriter struct {
